@@ -217,13 +217,13 @@ PROPS = {
     },
     "C06": {
         "level": "model_checking",
-        "technique": "stateless model checking of concurrent create/open/open_or_create/drop of one service by several nodes (threads) on the real service builder code; bounded-exhaustive single-thread histories and the full creator-settings x opener-requirements table (seqx leg)",
-        "legs": [{"ws": "mc", "bin": "h_service_mt"}, {"ws": "seq", "bin": "h_lifecycle", "args": ["--prop", "C06"]}],
+        "technique": "stateless model checking of concurrent create/open/open_or_create/drop of one service by several nodes (threads) on the real service builder code; bounded-exhaustive single-thread histories and the full creator-settings x opener-requirements table (seqx leg); all single-preemption interleavings of two PROCESSES at system-call granularity under ptrace (ptx leg, ipc variant)",
+        "legs": [{"ws": "mc", "bin": "h_service_mt"}, {"ws": "seq", "bin": "h_lifecycle", "args": ["--prop", "C06"]}, {"ws": "seq", "bin": "ptx", "args": ["--prop", "C06"]}],
         "rule": "one case = (messaging pattern: publish-subscribe | event | request-response | blackboard (creator/opener only), per-thread call: create(settings) | open | open_or_create(settings) | create-then-drop | open-then-drop); every schedule within the preemption bound is executed on the real code (local service: process-local storages, their pthread mutex and the clock under scheduler control); outcome = what every call returned",
-        "assumptions": IXMC_ASSUME + ["local::Service (process-local static/dynamic storages) stands for the ipc variant at thread level; the file/shm based creation protocol between processes is exercised only sequentially (seqx leg) and by the crash enumeration of C04", "two-process interleaving search (DESIGN.md §3.2 use 3) was cut", "scheduling points on locations that only one thread touches after the setup phase, or that nobody writes, are elided (learned set, iterated to a fixed point)"],
+        "assumptions": IXMC_ASSUME + ["thread leg: local::Service (process-local static/dynamic storages); process leg: ipc::Service (files + shared memory), two processes, the first one stopped before each visible system call of its service creation and of its service drop while the second runs one complete call (one preemption, system-call granularity; the first party's creation_timeout is 20 s so that time spent stopped is not counted against its retry budget, the second party's is 40 ms)", "scheduling points on locations that only one thread touches after the setup phase, or that nobody writes, are elided (learned set, iterated to a fixed point)"],
         "design_ref": "DESIGN.md §3.1, §4 C06",
         "level_text": "All schedules (preemption bound) of 2-3 nodes that create, open, open-or-create and drop the same service concurrently are executed on the real builder code: at most one creation succeeds, all live handles report the one configuration some creator asked for, every call returns a service or a documented contention error, the service exists while a handle lives, disappears with the last one and can then be created with other settings.",
-        "level_note": "trusted: ixmc scheduler incl. mutex/clock model and the elision argument (DESIGN.md §3.1); bounded: 2-3 threads, one call each, PB 1 quick / 2 thorough, two patterns",
+        "level_note": "trusted: ixmc scheduler incl. mutex/clock model and the elision argument (DESIGN.md §3.1); bounded: 2-3 threads, one call each, PB 1 quick / 2 thorough; 2 processes, one preemption at system-call granularity",
     },
     "C11": {
         "level": "exploration",
